@@ -815,7 +815,7 @@ def run_property(res, prop, tier, seed, replay, prop_files):
         obj = json.load(open(replay))
         scs = [obj["scenario"]]
     else:
-        scs = [s for s in load_corpus(prop) if s.get("kind") in kinds] + gen_suite(prop, tier, rng)
+        scs = [s for s in load_corpus(prop) if s.get("kind") in kinds and "datasets" not in s] + gen_suite(prop, tier, rng)
     trs = run_harness_sharded("exch", scs, wd)
     terms, steps = [], []
     for sc, tr in zip(scs, trs):
